@@ -39,7 +39,8 @@ def check_effects(ctx, trace_path):
     return names
 
 
-def run_templates(ctx, clauses, seeds, iters, name="runs", quick_grid=None, templates=None, evals=("seq",), components=False):
+def run_templates(ctx, clauses, seeds, iters, name="runs", quick_grid=None, templates=None, evals=("seq",), components=False,
+                  more_specs=()):
     if components:
         from checks.templates_grid import component_specs
         sp = component_specs(ctx.quick, seeds, iters)
@@ -47,6 +48,7 @@ def run_templates(ctx, clauses, seeds, iters, name="runs", quick_grid=None, temp
         sp = specs(ctx.quick if quick_grid is None else quick_grid, seeds, iters)
     if templates:
         sp = [s for s in sp if s["template"] in templates]
+    sp = sp + list(more_specs)     # property-specific runs that are not part of the shared grid
     out = []
     for s in sp:
         for e in evals:
